@@ -366,15 +366,23 @@ func c15Cls(scn *c15Scn, obs *c15Obs) string {
 		}
 	}
 	r0 := scn.Revs[0]
-	pol := "pull"
+	pre := r0.Pre
 	if r0.Never {
-		pol = "never"
+		pre = "never-" + pre
 	}
 	e := "noest"
 	if est > 0 {
 		e = "est"
 	}
-	return fmt.Sprintf("%s/%s/%s/pre=%s/revs=%d/f=%s/%s", r0.PType, r0.Img, pol, r0.Pre, len(scn.Revs), strings.Join(c15SortedKeys(fk), "+"), e)
+	// the dominant aspect of the history
+	fault := "nofault"
+	for _, k := range []string{"concurrent", "read", "store:write", "store:create", "store:close", "get", "init", "del", "upd", "deleted", "inactive", "sig:some", "sig:none", "sig:err"} {
+		if fk[k] {
+			fault = k
+			break
+		}
+	}
+	return fmt.Sprintf("%s/%s/pre=%s/revs=%d/%s/%s", r0.PType, r0.Img, pre, len(scn.Revs), fault, e)
 }
 
 // ---------------------------------------------------------------- xpkg build round trip (a differential TEST, not a theorem)
